@@ -161,13 +161,38 @@ def fmt_call(st):
     return f'{st[1]}.{st[0]}()'
 
 
+def _split_threads(scen):
+    """threads whose lock acquisitions are interleaved with another thread's in the counterexample's schedule: some
+    other thread is granted a lock between this thread's first and last grant"""
+    sched = scen.get('schedule') or []
+    grants = [(i, e[0]) for i, e in enumerate(sched) if isinstance(e, list) and len(e) > 1 and e[1] in ('attempt', 'wake', 'start')]
+    out = set()
+    by = {}
+    for i, t in grants:
+        by.setdefault(t, []).append(i)
+    for t, idx in by.items():
+        lo, hi = idx[0], idx[-1]
+        if any(t2 != t and lo < i < hi for i, t2 in grants):
+            out.add(t)
+    return out
+
+
 def sig_of(f):
     scen = f['scen']
     scripts = scen['steps'][-2][1]
     ops = sorted({st[0] for sc in scripts for st in sc})
+    split = _split_threads(scen)
+    # which kinds of call were cut in two by another thread (thread ids in the schedule are 1-based)
+    split_ops = sorted({st[0] for ti, sc in enumerate(scripts) if (ti + 1) in split for st in sc})
     return {'flavour': scen['flavour'], 'kind': f['kind'], 'ops': '+'.join(ops),
             'has_connect': any(o in ('connect', 'try_connect') for o in ops), 'has_isolate': 'isolate' in ops,
-            'has_disconnect': 'disconnect' in ops, 'has_degq': 'degq' in ops}
+            'has_disconnect': 'disconnect' in ops, 'has_degq': 'degq' in ops,
+            'connect_split': any(o in ('connect', 'try_connect') for o in split_ops),
+            'split': '+'.join(split_ops),
+            # does a (try_)connect of the scripts join two nodes that an initial edge already joins (either direction)?
+            'connect_on_old_pair': any(st[0] in ('connect', 'try_connect') and frozenset((st[1], st[2])) in
+                                       {frozenset((p[1], p[2])) for p in scen['steps'] if p[0] == 'connect'}
+                                       for sc in scripts for st in sc)}
 
 
 # ------------------------------------------------------------------ check driver
